@@ -62,7 +62,15 @@ func runC12(r *Run, p *Prog) {
 			return false
 		}
 		t := staticTarget(ci.Common())
-		return t != nil && wfn[t]
+		if t == nil {
+			return false
+		}
+		for g := range cg.Reach([]*ssa.Function{t}, false) {
+			if wfn[g] {
+				return true
+			}
+		}
+		return false
 	}
 	bname, bdesc := builtinDescription(p, T)
 	// ---- X1
